@@ -214,6 +214,9 @@ def _const_of(node):
         return ("m", ())       # mutable: forgotten as soon as the name is handed to a call or stored through
     if isinstance(node, ast.Dict) and not node.keys:
         return ("m", ())
+    # a module-level sentinel (`cell = _OUTSIDE_EDGES`): only its identity is known
+    if isinstance(node, ast.Name) and node.id.strip("_") and node.id.strip("_").isupper():
+        return ("s", node.id)
     return None
 
 
@@ -269,7 +272,14 @@ def _update_env(env, st):
 def _lit_value(env, expr):
     """Truth value of a literal expression under env, or None."""
     if isinstance(expr, ast.Name) and expr.id in env:
-        return _truth(env[expr.id])
+        return _truth(env[expr.id]) if env[expr.id][0] != "s" else None
+    if isinstance(expr, ast.Compare) and len(expr.ops) == 1 and isinstance(expr.left, ast.Name) and expr.left.id in env \
+            and env[expr.left.id][0] == "s":
+        # `x is SENTINEL` after `x = SENTINEL`
+        r = expr.comparators[0]
+        if isinstance(r, ast.Name) and r.id == env[expr.left.id][1] and isinstance(expr.ops[0], (ast.Is, ast.IsNot)):
+            return isinstance(expr.ops[0], ast.Is)
+        return None
     if isinstance(expr, ast.Constant):
         return bool(expr.value)
     if isinstance(expr, ast.Compare) and len(expr.ops) == 1 and isinstance(expr.left, ast.Name) \
